@@ -30,16 +30,37 @@ PRE = "From DF Require Import Base.Prelude Model.RefSQL Model.PhysDecomp.\nOpen 
 # one of them only if the harness' re-run with the corresponding override makes all its configurations agree again.
 KEY_SMJ = "C02-sort-merge-join-filter-index-out-of-bounds-with-several-partitions"
 KEY_DYN = "C02-join-dynamic-filter-pushdown-changes-result"
+KEY_SMJ_ROWS = "C02-sort-merge-outer-join-with-filter-returns-other-rows-than-hash-join"
+KEY_SMJ_NULL = "C02-sort-merge-join-output-violates-declared-non-nullable-column"
+KEY_SANITY = "C02-sanity-check-rejects-repartitioned-sort-of-union-with-repeated-sort-column"
 SUS_DYN = "datafusion.optimizer.enable_join_dynamic_filter_pushdown=false"
 SUS_PHJ = "datafusion.optimizer.prefer_hash_join=true"
+SUS_RSORT = "datafusion.optimizer.repartition_sorts=false"
+
+
+def has_outer_join(q):
+    if isinstance(q, list):
+        if len(q) > 1 and q[0] == "join" and q[1] in ("left", "right", "full"):
+            return True
+        return any(has_outer_join(x) for x in q)
+    return False
 
 
 def known_key(c):
     sus = {s["opt"]: s["ok"] for s in c.get("suspects", [])}
+    errs = [r["out"]["err"] for r in c["runs"] if "err" in r["out"]]
+    if any("SanityCheckPlan" in e for e in errs):
+        return KEY_SANITY if sus.get(SUS_RSORT) else None
+    if sus.get(SUS_PHJ) and not sus.get(SUS_DYN):
+        if any("index out of bounds" in e for e in errs):
+            return KEY_SMJ
+        if any("declared as non-nullable but contains null values" in e for e in errs):
+            return KEY_SMJ_NULL
+        if not errs and has_outer_join(c["q"]):
+            return KEY_SMJ_ROWS
+        return None
     if sus.get(SUS_DYN):
         return KEY_DYN
-    if sus.get(SUS_PHJ) and any("index out of bounds" in r["out"].get("err", "") for r in c["runs"]):
-        return KEY_SMJ
     return None
 
 
